@@ -94,16 +94,18 @@ type Profile struct {
 	LastStmtsOnly   int  // > 0: log-cut images are placed in the last so many statements only
 	GiantRows       int  // > 0: the first table is grown to this many rows by wide INSERTs before anything else happens (more leaves than the default cache holds pages)
 	WideInserts     bool // every INSERT carries MaxRows rows
+	BulkStmts       bool // giant-style plan whose UPDATEs / DELETEs may touch every row (C13 bulk variant)
 }
 
 type gen struct {
-	r    *Rng
-	pf   *Profile
-	m    *Model
-	tags map[string]int64 // next tag per table (db.table)
-	ntab int
-	ndb  int
-	recs int // log records the statements so far have written (predicted)
+	grown bool // the first table has reached GiantRows once (bulk plans delete it again)
+	r     *Rng
+	pf    *Profile
+	m     *Model
+	tags  map[string]int64 // next tag per table (db.table)
+	ntab  int
+	ndb   int
+	recs  int // log records the statements so far have written (predicted)
 }
 
 var identChars = "abcdefghijklmnopqrstuvwxyz"
@@ -114,7 +116,8 @@ func (g *gen) newName(prefix string, n int) string { return fmt.Sprintf("%s%d", 
 // mappings are irregular in Unicode.
 func (g *gen) dbBase() string {
 	if g.pf.DBs[1] > 1 && g.r.Chance(0.25) {
-		return []string{"disk", "kiosk", "sink"}[g.r.Intn(3)]
+		// (tbl / wal / data: the names of mkdb's own files and directory)
+		return []string{"disk", "kiosk", "sink", "tbl", "wal", "data", "tblwal"}[g.r.Intn(7)]
 	}
 	return "db"
 }
@@ -1414,7 +1417,7 @@ func (g *gen) composeSelect(db *MDB, t, other *MTable) string {
 // genStmts appends n statements generated against g.m.
 func (g *gen) genStmts(n int, small bool) []Stmt {
 	pf := g.pf
-	if pf.GiantRows > 0 {
+	if pf.GiantRows > 0 && !pf.BulkStmts {
 		// a statement may not dirty more pages than the cache holds
 		small = true
 	}
@@ -1469,7 +1472,10 @@ func (g *gen) genStmts(n int, small bool) []Stmt {
 			t = db.Tables[0]
 		}
 		pick := g.r.Pick(ws)
-		if pf.GiantRows > 0 && len(t.Rows) < pf.GiantRows {
+		if pf.GiantRows > 0 && len(t.Rows) >= pf.GiantRows {
+			g.grown = true
+		}
+		if pf.GiantRows > 0 && len(t.Rows) < pf.GiantRows && !(g.grown && pf.BulkStmts) {
 			pick = 1
 		} else if pf.LongLog > 0 && g.recs < pf.LongLog && len(t.Cols) > 1 {
 			// every row once more: one log record each
@@ -1493,7 +1499,11 @@ func (g *gen) genStmts(n int, small bool) []Stmt {
 		case 2:
 			emit(g.stmtUpdate(db, t, small))
 		case 3:
-			emit(g.stmtDelete(db, t, small))
+			d := g.stmtDelete(db, t, small)
+			if pf.BulkStmts && g.r.Chance(0.5) {
+				d.Where = nil // every row
+			}
+			emit(d)
 		case 4:
 			emit(Stmt{Kind: KSelect, Table: t.Name})
 		case 5:
